@@ -31,6 +31,7 @@ ASSUMPTIONS = [
 ]
 ALPHA = ['a', 'b', ' ', '\n', '.']
 NSHARDS = {'quick': 16, 'thorough': 16}
+RULE += (' For a third of the public pairs ELLIPSIS is switched on one state object between two calls on the same texts.')
 
 
 def required_cells(tier):
